@@ -75,6 +75,7 @@ struct NewM {
     Box box;
     std::vector<Std> stds; std::set<int> handles;
     bool have_cal = false, trusted = false; double tol = TOL_LINEAR;   // a solved calibration waits in vn
+    bool ever_solved = false;
 };
 
 struct DataH { vnadata_t *v; explicit DataH(vnadata_t *p) : v(p) {} ~DataH() { if (v) vnadata_free(v); } };
@@ -527,7 +528,7 @@ struct H {
         PBT_CHECK(c, rc == src, "C16.deleted_handle_changes_solve", "step %d: vnacal_new_solve = %d (%s) but the clone history without parameter deletions gives %d (%s)", step, rc, log.text().c_str(), src, slog.text().c_str());
         if (det) PBT_CHECK(c, rc == 0, "C16.solve_failed", "step %d: vnacal_new_solve failed on a determined, well-conditioned standard set: %s", step, log.text().c_str());
         if (rc == 0) {
-            n.have_cal = true; n.trusted = det; n.tol = unk.empty() ? TOL_LINEAR : TOL_ITER;
+            n.have_cal = true; n.ever_solved = true; n.trusted = det; n.tol = unk.empty() ? TOL_LINEAR : TOL_ITER;
             for (int h : unk) { auto it = pars.find(h); if (it != pars.end()) { it->second.solved = true; it->second.value_trusted = det; it->second.solved_F = n.F; it->second.solved_tol = TOL_ITER; } }
             if (!unk.empty()) c.label("solved-with-unknown");
         }
@@ -549,6 +550,7 @@ struct H {
         NewM &n = nw[s];
         bool replace = !cals.empty() && c.chance(1, 3);
         std::string name = gen_cal_name(replace);
+        if (!n.have_cal && n.ever_solved) return;   // solved calibration already stored: vnacal(3) does not say what a second add does -- not generated
         if (!n.have_cal) {
             c.note("add_calibration(\"%s\", slot %d)  [nothing solved: refused]", name.c_str(), s);
             log.clear();
